@@ -664,19 +664,31 @@ def check_substance_keys(res, which, mode):
 DF_POOL = ["CO", "H2", "CH4", "CO2", "H2O", "O2", "C"]
 
 
-def check_duplicates_formula(res, R, P):
-    """allow_duplicates=True, underdetermined=None through formulas, with up to four products"""
+DF_ALTER = {"H2O": {1: 2, 8: 2}, "CO2": {6: 1, 8: 3}, "CH4": {6: 1, 1: 2}}  # a label whose supplied composition is another one
+
+
+def check_duplicates_formula(res, R, P, alter=None):
+    """allow_duplicates=True, underdetermined=None through formulas, with up to four products; alter=<formula>: the caller supplies
+    `substances`, in which that label carries another composition than its text reads as - the supplied one decides"""
     import sympy
     from chempy import balance_stoichiometry
 
     rn, pn = [DF_POOL[i] for i in R], [DF_POOL[i] for i in P]
-    case = dict(layer="DF", R=list(R), P=list(P))
+    case = dict(layer="DF", R=list(R), P=list(P), alter=alter)
+    kw = {}
+    flat = _flatcomp
+    if alter is not None:
+        from chempy import Substance
+
+        comps = {f: (dict(DF_ALTER[f]) if f == alter else dict(Substance.from_formula(f).composition)) for f in set(rn) | set(pn)}
+        kw = dict(substances={f: Substance(f, composition=dict(c)) for f, c in comps.items()})
+        flat = lambda f: comps[f]
     res.states += 1
     res.transitions += 1
     res.evaluations += 1
     res.nontrivial += 1
     try:
-        r, p = balance_stoichiometry(rn, pn, underdetermined=None, allow_duplicates=True)
+        r, p = balance_stoichiometry(rn, pn, underdetermined=None, allow_duplicates=True, **kw)
         out = ("ok", {k: str(v) for k, v in r.items()}, {k: str(v) for k, v in p.items()})
     except ValueError as e:
         r = p = None
@@ -701,7 +713,7 @@ def check_duplicates_formula(res, R, P):
             tot = {}
             for d, sg in ((r, -1), (p, 1)):
                 for k, c in d.items():
-                    for el, n in _flatcomp(k).items():
+                    for el, n in flat(k).items():
                         tot[el] = tot.get(el, 0) + sg * int(c) * n
             if any(tot.values()):
                 v.append("unbalanced")
@@ -711,7 +723,8 @@ def check_duplicates_formula(res, R, P):
             v.append("wrong-exception-" + out[0][4:])
         res.outcomes["dupF:" + out[0].split(" ")[0]] += 1
     for what in v:
-        res.violation("C02|duplicates|formulas|%s" % what, "balance_stoichiometry(%r -> %r, underdetermined=None, allow_duplicates=True) %s: %s [%s]" % (rn, pn, out[0], out[1:], what), case, out, None)
+        res.violation("C02|duplicates|formulas|%s" % what + ("" if alter is None else "|supplied-composition-differs-from-label"), "balance_stoichiometry(%r -> %r, underdetermined=None, allow_duplicates=True%s) %s: %s [%s]" % (
+            rn, pn, "" if alter is None else ", substances supplied with %s = %r" % (alter, DF_ALTER[alter]), out[0], out[1:], what), case, out, None)
 
 
 # ------------------------------------------------------------------------------------------------ chunks
@@ -741,6 +754,9 @@ def run_chunk(chunk, tier):
                 for P in itertools.combinations(idx, k):
                     if len(set(R) & set(P)) in (1, 2):
                         check_duplicates_formula(res, R, P)
+                        for alter in DF_ALTER:
+                            if alter in [DF_POOL[i] for i in set(R) | set(P)]:
+                                check_duplicates_formula(res, R, P, alter)
         res.sample(dict(layer="DF", first=DF_POOL[first], pool=DF_POOL))
         return res
     if kind == "L":
@@ -783,7 +799,7 @@ def replay(case):
     elif case["layer"] == "SK":
         check_substance_keys(res, case["which"], {"True": True, "False": False, "None": None}[case["mode"]])
     elif case["layer"] == "DF":
-        check_duplicates_formula(res, tuple(case["R"]), tuple(case["P"]))
+        check_duplicates_formula(res, tuple(case["R"]), tuple(case["P"]), case.get("alter"))
     elif case["layer"] == "D":
         check_duplicates(res, tuple(case["R"]), tuple(case["P"]), tier, case.get("labels", "rank"))
     else:
